@@ -1,4 +1,5 @@
 #!/bin/sh
+export HCSYM_EVIDENCE_DIR=/tmp/hcsym-scratch-evidence; mkdir -p $HCSYM_EVIDENCE_DIR
 # tools/mut.sh <prop> <file-in-repo> <sed-expr> : apply a one-line mutation, run the quick check, revert
 prop=$1; file=$2; expr=$3
 cd /repo && cp "$file" /tmp/mut.bak && sed -i "$expr" "$file"
